@@ -136,6 +136,40 @@ def h_bridges(eng, layout, n, order):
         eng.check(Implies(alone(i), free_ok), "free-cys-keeps-thiol", note=f"layout={layout} order={order}: CYS {i} has no sulfur within {LIMIT} but state is {' '.join(state)}")
 
 
+def h_geometric(eng, n):
+    """the sulfur COORDINATES are symbolic (not a stubbed metric): the real util.distance runs on
+    them through the numpy subset; bonded iff the Euclidean distance is below the limit"""
+    from pdb2pqr import aa, utilities
+    from symx import shims
+
+    lines = []
+    for i in range(n):
+        lines += fixtures.residue_lines("CYS", "ABC"[i], 10 + i, offset=(0.0, 12.0 * i, 0.0)) + ["TER"]
+    bm, _ = fixtures.prepared(lines)
+    cys = [r for r in bm.residues if isinstance(r, aa.CYS)]
+    sg = []
+    for i, r in enumerate(cys):
+        a = r.get_atom("SG")
+        a.x, a.y, a.z = eng.real(f"sg{i}_x"), eng.real(f"sg{i}_y"), eng.real(f"sg{i}_z")
+        sg.append(a)
+    sh = [(utilities, "np", shims.NP)] if eng.symbolic else []
+    with patched(*sh):
+        bm.update_ss_bridges()
+
+    def d2(a, b):
+        return (a.x - b.x) * (a.x - b.x) + (a.y - b.y) * (a.y - b.y) + (a.z - b.z) * (a.z - b.z)
+
+    L2 = LIMIT * LIMIT
+    for i, j in itertools.combinations(range(n), 2):
+        others = [k for k in range(n) if k not in (i, j)]
+        isolated = And(d2(sg[i], sg[j]) < L2, *[And(d2(sg[i], sg[k]) >= L2, d2(sg[j], sg[k]) >= L2) for k in others])
+        ok = bool(cys[i].ss_bonded) and bool(cys[j].ss_bonded) and cys[i].ss_bonded_partner is sg[j] and cys[j].ss_bonded_partner is sg[i] and cys[i].patches.count("CYX") == 1 and cys[j].patches.count("CYX") == 1
+        eng.check(Implies(isolated, ok), "isolated-pair-bonded-geometric", note=f"sulfurs {i},{j} closer than {LIMIT} A (and to no third) but not bridged symmetrically")
+    for i in range(n):
+        alone = And(*[d2(sg[i], sg[k]) >= L2 for k in range(n) if k != i])
+        eng.check(Implies(alone, (not cys[i].ss_bonded) and "CYX" not in cys[i].patches), "free-cys-geometric", note=f"CYS {i} has no sulfur within {LIMIT} A but is marked bridged")
+
+
 def obligations(tier):
     obs = []
     if tier == "quick":
@@ -152,6 +186,8 @@ def obligations(tier):
         for order in orders:
             tag = "".join(map(str, order))
             obs.append(Obligation(f"bridges-{layout}-n{n}-o{tag}", h_bridges, {"layout": layout, "n": n, "order": list(order)}, group="bridges", time_cap=2400, max_paths=100000))
+    for n in (2,) if tier == "quick" else (2, 3):
+        obs.append(Obligation(f"geometric-n{n}", h_geometric, dict(n=n), group="geometric", time_cap=1500))
     return obs
 
 
@@ -174,7 +210,7 @@ META = dict(
     ],
     outside=[
         "non-isolated configurations (a sulfur within the limit of two others): the property does not constrain them",
-        "that util.distance computes the Euclidean distance (numpy)",
+        "in the metric obligations: that util.distance computes the Euclidean distance (the geometric obligations execute the real util.distance on symbolic sulfur coordinates for 2-3 cysteines)",
         "more than 5 cysteines",
     ],
     assumptions=["bonding limit 2.5 A taken from the property statement; boundary d = 2.5 counts as not bonded on both sides (strict <)"],
